@@ -62,6 +62,20 @@ theorem dot_bounds (ws xs : List ℚ) {P M : ℚ} (hP : 0 ≤ P) (hM : M ≤ 0)
       simp only [dot, sumPos_cons, sumNeg_cons]
       constructor <;> nlinarith [ih'.1, ih'.2, ht.1, ht.2]
 
+/-- `max(n1, n0) ≥ 0`: `n1 + n0 = (npp − nnn)·(x⁺ − x⁻) ≥ 0`, so `log2` never sees a negative
+    number and the only failure of `int(ceil(log2 ·))` is `log2 0` (OverflowError) -/
+theorem chanBound_nonneg (ws : List ℚ) (b xmin xmax : ℚ) : 0 ≤ chanBound ws b xmin xmax := by
+  have hA := sumPos_nonneg ws
+  have hB := sumNeg_nonpos ws
+  have hP := posPart_nonneg xmax
+  have hM := negPart_nonpos xmin
+  have hs : 0 ≤ estN1 ws b xmin xmax + estN0 ws b xmin xmax := by
+    unfold estN1 estN0 estNpp estNnn
+    nlinarith [mul_nonneg (sub_nonneg.2 (le_trans hB hA)) (sub_nonneg.2 (le_trans hM hP))]
+  show 0 ≤ if estN0 ws b xmin xmax < estN1 ws b xmin xmax
+    then estN1 ws b xmin xmax else estN0 ws b xmin xmax
+  split <;> linarith
+
 /-- `q ≤ 2^ceil(log2 q)` for every positive rational -/
 theorem le_pow2_ceilLog2Rat {q : ℚ} (hq : 0 < q) : q ≤ pow2 (ceilLog2Rat q) := by
   have hnum : 0 < q.num := Rat.num_pos.mpr hq
